@@ -16,7 +16,7 @@ for c in "$@"; do
   out=$(cd /verif && VERIF_REPO="$D" VERIF_LEAN="$L" VERIF_WORK="/tmp/work-mut-$$" VERIF_BINTAG="mut-$c" ./check "$c" 2>&1 | grep -E "^VIOLATION|ok \(|MACHINERY" | head -3 | tr '\n' ' ')
   echo "$c: $out"
   for r in /tmp/work-mut-$$/replays/$c-*.json; do
-    [ -f "$r" ] && python3 -c "import json,sys; d=json.load(open(sys.argv[1])); v=(d.get('violations') or [{}])[0]; print('    ->', (v.get('what') or str(d.get('broken'))[:300])[:400])" "$r"
+    [ -f "$r" ] && python3 /verif/tools/showreplay.py "$r"
   done
 done
 rm -rf "$D" "$L" /tmp/work-mut-$$
